@@ -215,7 +215,8 @@ def judge(sent, replies, mtu):
         if named in ops and A.classify_opcode(named) == 'request':
             out.append(('multiple_replies', {'opcode': named}, f'request 0x{named:02X} answered more than once: {[x[:8].hex() for x in srv]}'))
         else:
-            cls = A.classify_opcode(ops[0]) if len(ops) == 1 else 'mixed'
+            classes = {A.classify_opcode(o) for o in ops}
+            cls = classes.pop() if len(classes) == 1 else 'mixed'
             out.append(('unsolicited_reply', {'to': cls, 'reply_opcode': r[0]}, f'server sent {r[:8].hex()} although nothing asked for it (injected {[p[:8].hex() for p in sent]})'))
     return out
 
@@ -684,16 +685,34 @@ def focus_ops(bearer):
     return APP_OPS + ('wait30',) + tuple(f'{o}@{bearer}' for o in PEER_OPS)
 
 
+B2B_PDUS = ('cfm', 'offA', 'subA', 'mtu', 'read', 'wcmd')  # single PDUs that are paired back to back
+
+
 def indication_histories(quick):
     seen, out = set(), []
+
+    def add(h):
+        # histories that never start an indication are trivial; keep them out
+        if h not in seen and any(o.startswith('ind') for o in h):
+            seen.add(h)
+            out.append(h)
+
     plans = [(IND_OPS, 5 if quick else 7), (focus_ops('att'), 4 if quick else 5), (focus_ops('eatt'), 4 if quick else 5)]
     for ops, depth in plans:
         for d in range(1, depth + 1):
             for h in itertools.product(ops, repeat=d):
-                # histories that never start an indication are trivial; keep them out
-                if h not in seen and any(o.startswith('ind') for o in h):
-                    seen.add(h)
-                    out.append(h)
+                add(h)
+    # two peer PDUs delivered back to back (the server does not get to run in between), in every
+    # state reachable by a short prefix, followed by one more step
+    for b in ('att', 'eatt'):
+        pre_ops = ('indA', 'indB', 'indAB', f'cfm@{b}', f'off@{b}')
+        prefixes = [h for d in range(1, (2 if quick else 3) + 1) for h in itertools.product(pre_ops, repeat=d)]
+        suffixes = [(), ('indA',), (f'cfm@{b}',), ('wait30',)]
+        for pre in prefixes:
+            for x in B2B_PDUS:
+                for y in B2B_PDUS:
+                    for suf in suffixes:
+                        add(pre + (f'b2b:{x}+{y}@{b}',) + suf)
     return out
 
 
@@ -701,7 +720,8 @@ def run_indication_history(aw, hist, names, attrs, cccds):
     """The invariant is judged from the wire only: per bearer, Handle Value Indications
     (0x1D) sent minus confirmations (0x1E) delivered, an indication also being released
     when the 30 s transaction timeout has passed since it was sent.
-    Returns (violation message or None, observation tuple)."""
+    The replies to the peer's own PDUs are judged with the ordinary C10 oracle.
+    Returns (violation message or None, [(check, signature, message)], observation tuple)."""
     loop = aw.loop
     srv = aw.server
     tasks = []
@@ -709,6 +729,7 @@ def run_indication_history(aw, hist, names, attrs, cccds):
     sent_at = {n: [] for n in names}  # send times of indications not yet released
     obs = []
     worst = None
+    problems = []
     touched_cccd = False
     for n in names:
         aw.take(n)
@@ -720,6 +741,7 @@ def run_indication_history(aw, hist, names, attrs, cccds):
                     sent_at[n].append(loop.time())
 
     for i, op in enumerate(hist):
+        state_before = tuple(len(sent_at[n]) for n in names)
         if op in APP_OPS:
             if op == 'ntfA':
                 tasks.append(loop.create_task(srv.notify_subscribers(attrs[0])))
@@ -746,19 +768,35 @@ def run_indication_history(aw, hist, names, attrs, cccds):
         else:
             kind, b = op.split('@')
             n = by[b]
-            if kind == 'cfm':
-                # a confirmation releases the (oldest) outstanding indication of that bearer
-                if sent_at[n]:
-                    sent_at[n].pop(0)
-                aw.inject(n, bytes([A.OP_CONFIRMATION]))
-            elif kind == 'mtu':
-                aw.inject(n, A.req_exchange_mtu(23))
+            single = {
+                'cfm': bytes([A.OP_CONFIRMATION]), 'mtu': A.req_exchange_mtu(23), 'read': A.req_read(attrs[0].handle),
+                'wcmd': A.req_write(attrs[0].handle, b'w', 0x52), 'offA': A.req_write(cccds[0], b'\x00\x00'), 'subA': A.req_write(cccds[0], b'\x03\x00'),
+            }
+            if kind.startswith('b2b:'):
+                groups = [[single[x] for x in kind[4:].split('+')]]
+            elif kind in ('off', 'ntfonly', 'sub'):
+                bits = {'off': 0, 'ntfonly': 1, 'sub': 3}[kind]
+                groups = [[A.req_write(h, bytes([bits, 0]))] for h in cccds]
             else:
-                touched_cccd = True
-                bits = {'off': 0, 'offA': 0, 'ntfonly': 1, 'sub': 3}[kind]
-                for h in (cccds[:1] if kind == 'offA' else cccds):
-                    aw.inject(n, A.req_write(h, bytes([bits, 0])))
-                    absorb()
+                groups = [[single[kind]]]
+            touched_cccd = touched_cccd or any(p[0] == 0x12 and (p[1] | p[2] << 8) in cccds for g in groups for p in g)
+            for grp in groups:
+                got = []
+                for j, p in enumerate(grp):
+                    if p[0] == A.OP_CONFIRMATION and sent_at[n]:
+                        sent_at[n].pop(0)  # a confirmation releases the (oldest) outstanding indication of that bearer
+                    got += aw.inject(n, p, settle=(j == len(grp) - 1))  # all but the last: no event-loop step before the next PDU
+                aw.take(n)
+                replies = []
+                for p in got:
+                    if p[0] == A.OP_INDICATION:
+                        sent_at[n].append(loop.time())
+                    elif p[0] not in A.NOTIFICATIONS:
+                        replies.append(p)
+                # the replies to the peer's PDUs are judged like everywhere else in C10
+                for check, extra, msg in judge(grp, replies, 23):
+                    problems.append((check, dict(extra, bearer=b, ops=kind.split(':')[-1], indication_pending=bool(state_before[names.index(n)])),
+                                     f'step {i} ({op}) of {list(hist)}: {msg}'))
             absorb()
         state = tuple(len(sent_at[n]) for n in names)
         obs.append(state)
@@ -784,7 +822,7 @@ def run_indication_history(aw, hist, names, attrs, cccds):
             outcomes.append(type(t.exception()).__name__ if t.exception() else 'ok')
     loop.run_quiescent()
     aw.take_errors()
-    return worst, (tuple(obs), tuple(outcomes))
+    return worst, problems, (tuple(obs), tuple(outcomes), len(problems))
 
 
 def setup_indication_world(aw, st=None):
@@ -803,7 +841,13 @@ def setup_indication_world(aw, st=None):
 
 def indication_signature(hist, bad):
     step = int(bad.split('after step ')[1].split(' ')[0])
-    before = sorted({o.split('@')[0] for o in hist[:step] if '@' in o and not o.startswith('cfm')})
+    before = set()
+    for o in hist[:step]:
+        if '@' in o:
+            for part in o.split('@')[0].replace('b2b:', '').split('+'):
+                if part != 'cfm':
+                    before.add({'offA': 'off', 'subA': 'sub'}.get(part, part))
+    before = sorted(before)
     last = hist[step].split('@')[0]
     return {'last_op': 'ind' if last.startswith('ind') else last, 'peer_ops_before': before}
 
@@ -813,12 +857,16 @@ def w_indications(hists):
     aw = world()
     names, attrs, cccds = setup_indication_world(aw, st)
     for hist in hists:
-        bad, obs = run_indication_history(aw, hist, names, attrs, cccds)
+        bad, problems, obs = run_indication_history(aw, hist, names, attrs, cccds)
         st.case(obs)
         st.add('max_outstanding', max((max(s) for s in obs[0]), default=0))
         st.add('task_outcomes', obs[1])
+        if any(o.startswith('b2b:') for o in hist):
+            st.count('back_to_back_histories')
         if bad:
             st.violation('two_unconfirmed_indications', indication_signature(hist, bad), bad, {'mode': 'indications', 'hist': list(hist)})
+        for check, sig, msg in problems:
+            st.violation(check, sig, msg, {'mode': 'indications', 'hist': list(hist)})
     if hists:
         st.samples.append({'history': list(hists[len(hists) // 2])})
     aw.restore()
@@ -1128,9 +1176,10 @@ def replay_one(check, c):
     elif mode == 'indications':
         with A.AttWorld() as aw:
             names, attrs, cccds = setup_indication_world(aw)
-            bad, _ = run_indication_history(aw, tuple(c['hist']), names, attrs, cccds)
-            if bad:
+            bad, problems, _ = run_indication_history(aw, tuple(c['hist']), names, attrs, cccds)
+            if bad and check == 'two_unconfirmed_indications':
                 msgs.append(bad)
+            msgs += [m for chk, _, m in problems if chk == check]
     elif mode == 'eatt_l2cap':
         with A.AttWorld() as aw:
             db = aw.set_database(shape_spec('std', 3, None, 0))
